@@ -163,7 +163,9 @@ func (cks KeySwitchProtocol) AggregateShares(share1, share2 KeySwitchShare, shar
 // KeySwitch performs the actual keyswitching operation on a ciphertext ct and put the result in opOut
 func (cks KeySwitchProtocol) KeySwitch(ctIn *rlwe.Ciphertext, combined KeySwitchShare, opOut *rlwe.Ciphertext) {
 
-	level := ctIn.Level()
+	// The shares are generated at the smallest of the level of the ciphertext and of the
+	// level they were allocated at: that is the level of the result.
+	level := utils.Min(ctIn.Level(), combined.Value.Level())
 
 	if ctIn != opOut {
 
@@ -175,6 +177,10 @@ func (cks KeySwitchProtocol) KeySwitch(ctIn *rlwe.Ciphertext, combined KeySwitch
 	}
 
 	cks.params.RingQ().AtLevel(level).Add(ctIn.Value[0], combined.Value, opOut.Value[0])
+
+	if ctIn == opOut {
+		opOut.Resize(opOut.Degree(), level)
+	}
 }
 
 // Level returns the level of the target share.
